@@ -72,6 +72,7 @@ type svcWorld struct {
 	gid     int
 	offLoop bool
 	nCase   int
+	h       *hx.T
 }
 
 func newSvcWorld() *svcWorld {
@@ -95,22 +96,115 @@ func (w *svcWorld) now() int { return int(time.Since(w.base) / time.Millisecond)
 
 func (w *svcWorld) mgr() *timer.Mgr { return w.svc.GetRunService().GetTimerMgr() }
 
-// timers returns Mgr.timers (unexported sync.Map), read-only use.
-func (w *svcWorld) timers() *sync.Map {
-	f := reflect.ValueOf(w.mgr()).Elem().FieldByName("timers")
-	return (*sync.Map)(unsafe.Pointer(f.UnsafeAddr()))
+// White-box probes, resolved structurally (never by field name) and read-only.
+
+var (
+	tyObjPtr  = reflect.TypeOf((*timer.Obj)(nil))
+	tyIdType  = reflect.TypeOf(timer.IdType(0))
+	tySyncMap = reflect.TypeOf(sync.Map{})
+)
+
+// open returns an addressable, settable view of a (possibly unexported) struct field.
+func open(f reflect.Value) reflect.Value {
+	return reflect.NewAt(f.Type(), unsafe.Pointer(f.UnsafeAddr())).Elem()
 }
 
-func (w *svcWorld) own() uint64 {
-	return reflect.ValueOf(w.svc).Elem().FieldByName("timerCheckExpired").Uint()
+// objs collects the *timer.Obj values of every container (sync.Map, or Go map whose element
+// type is *timer.Obj) reachable from v through structs and pointers, depth <= 3.
+// found reports whether any such container exists.
+func objs(v reflect.Value, depth int, out *[]*timer.Obj, found *bool) {
+	if depth > 3 || !v.IsValid() {
+		return
+	}
+	switch v.Kind() {
+	case reflect.Ptr:
+		if !v.IsNil() && v.Type().Elem().Kind() == reflect.Struct {
+			objs(v.Elem(), depth, out, found)
+		}
+	case reflect.Struct:
+		if v.Type() == tySyncMap {
+			if !v.CanAddr() {
+				return
+			}
+			m := (*sync.Map)(unsafe.Pointer(v.UnsafeAddr()))
+			ok := true
+			var got []*timer.Obj
+			m.Range(func(_, val interface{}) bool {
+				o, isObj := val.(*timer.Obj)
+				if !isObj {
+					ok = false
+					return false
+				}
+				got = append(got, o)
+				return true
+			})
+			if ok {
+				*found = true
+				*out = append(*out, got...)
+			}
+			return
+		}
+		for i := 0; i < v.NumField(); i++ {
+			f := v.Field(i)
+			if !f.CanAddr() {
+				continue
+			}
+			objs(open(f), depth+1, out, found)
+		}
+	case reflect.Map:
+		if v.Type().Elem() == tyObjPtr {
+			*found = true
+			it := v.MapRange()
+			for it.Next() {
+				if o, ok := it.Value().Interface().(*timer.Obj); ok && o != nil {
+					*out = append(*out, o)
+				}
+			}
+		}
+	}
+}
+
+// liveObjs: the timer objects the manager holds; ok=false when no container was found.
+func (w *svcWorld) liveObjs() (res []*timer.Obj, ok bool) {
+	defer func() {
+		if recover() != nil {
+			res, ok = nil, false
+		}
+	}()
+	if np := hx.Env("VERIF_C14_NOPROBE", ""); np == "live" || np == "both" {
+		return nil, false // development aid: behave as if the container could not be found
+	}
+	objs(reflect.ValueOf(w.mgr()), 0, &res, &ok)
+	return
+}
+
+// own: the timer id the service believes it owns = its single field of type timer.IdType.
+func (w *svcWorld) own() (id uint64, ok bool) {
+	defer func() {
+		if recover() != nil {
+			id, ok = 0, false
+		}
+	}()
+	if np := hx.Env("VERIF_C14_NOPROBE", ""); np == "own" || np == "both" {
+		return 0, false
+	}
+	v := reflect.ValueOf(w.svc).Elem()
+	n := 0
+	for i := 0; i < v.NumField(); i++ {
+		if v.Field(i).Type() == tyIdType {
+			id = v.Field(i).Uint()
+			n++
+		}
+	}
+	return id, n == 1
 }
 
 // wrap makes every timer object of the manager log its callback runs.
-func (w *svcWorld) wrap() {
-	w.timers().Range(func(k, v interface{}) bool {
-		o := v.(*timer.Obj)
+func (w *svcWorld) wrap(live []*timer.Obj) {
+	for _, o := range live {
+		o := o
 		if w.wrapped[o] {
-			return true
+			continue
 		}
 		w.wrapped[o] = true
 		orig := o.CB
@@ -126,8 +220,7 @@ func (w *svcWorld) wrap() {
 			w.mu.Unlock()
 			orig(args...)
 		}
-		return true
-	})
+	}
 }
 
 func (w *svcWorld) onSvc(fn func()) {
@@ -136,23 +229,38 @@ func (w *svcWorld) onSvc(fn func()) {
 }
 
 func (w *svcWorld) obs() string {
-	w.wrap()
-	var ids []int
-	w.timers().Range(func(k, v interface{}) bool {
-		ids = append(ids, int(v.(*timer.Obj).TimerId))
-		return true
-	})
-	sort.Ints(ids)
-	ss := make([]string, len(ids))
-	for i, v := range ids {
-		ss[i] = fmt.Sprint(v)
+	live, okLive := w.liveObjs()
+	liveS := "?"
+	if okLive {
+		w.wrap(live)
+		ids := make([]int, 0, len(live))
+		for _, o := range live {
+			ids = append(ids, int(o.TimerId))
+		}
+		sort.Ints(ids)
+		ss := make([]string, len(ids))
+		for i, v := range ids {
+			ss[i] = fmt.Sprint(v)
+		}
+		liveS = strings.Join(ss, ",")
+	} else {
+		w.h.Count("probe.unresolved.live")
+	}
+	ownS := "?"
+	if id, ok := w.own(); ok {
+		ownS = fmt.Sprint(id)
+	} else {
+		w.h.Count("probe.unresolved.own")
 	}
 	w.mu.Lock()
 	l, off := w.log, w.offLoop
 	w.log, w.offLoop = nil, false
 	w.mu.Unlock()
-	s := fmt.Sprintf("now=%d ev=%s live=%s own=%d pend=%d q=%d", w.now(), strings.Join(l, ";"), strings.Join(ss, ","),
-		w.own(), len(w.svc.Handlers), len(w.mgr().GetQueue()))
+	evS := strings.Join(l, ";")
+	if !okLive {
+		evS = "?" // without the container the callbacks cannot be wrapped: no log
+	}
+	s := fmt.Sprintf("now=%d ev=%s live=%s own=%s pend=%d q=%d", w.now(), evS, liveS, ownS, len(w.svc.Handlers), len(w.mgr().GetQueue()))
 	if off {
 		s += " loop=0"
 	}
@@ -167,7 +275,7 @@ func (w *svcWorld) exec(op string) string {
 	if ws[0] == "reset" {
 		if w.svc != nil {
 			// let the previous service's requests expire and its timer free itself
-			if len(w.svc.Handlers) > 0 || w.own() != 0 {
+			if id, ok := w.own(); len(w.svc.Handlers) > 0 || id != 0 || !ok {
 				time.Sleep(33 * time.Second)
 				synctest.Wait()
 			}
@@ -240,6 +348,7 @@ func TestSvc(t *testing.T) {
 	synctest.Test(t, func(t *testing.T) {
 		h := hx.Open()
 		w := newSvcWorld()
+		w.h = h
 		run := func(op string) {
 			obs := w.exec(op)
 			if strings.Contains(obs, "live= own=0") && strings.HasPrefix(op, "sadv") {
